@@ -23,13 +23,61 @@ INF = float("inf")
 
 
 def py_plain(cfg):
+    """plain up to timeouts (the model's plainT); timeouts must leave slack, see py_slack"""
     for i, j in enumerate(cfg["jobs"]):
         if j["sched"]:
-            if j.get("window") or j.get("timeout") is not None or (i != 0 and j["forever"]):
+            if j.get("window") or (i != 0 and j["forever"]):
                 return False
         elif j["dur"] is None or j["forever"] or j["sdur"] != 0:
             return False
-    return True
+    return py_slack(cfg)
+
+
+def py_schedule(cfg):
+    """start and end instants of every job by direct recursion over the tree (written independently
+    of the model's iterative solver)"""
+    jobs = cfg["jobs"]
+    n = len(jobs)
+    kids = {}
+    for k in range(1, n):
+        kids.setdefault(jobs[k]["parent"], []).append(k)
+    S, E = [None] * n, [None] * n
+
+    def start(x):
+        if S[x] is None:
+            S[x] = 0 if x == 0 else max([start(jobs[x]["parent"])] + [end(r) for r in jobs[x]["reqs"]])
+        return S[x]
+
+    def end(x):
+        if E[x] is None:
+            if jobs[x]["sched"]:
+                E[x] = max([start(x)] + [end(y) for y in kids.get(x, [])])
+            else:
+                E[x] = start(x) + (jobs[x]["dur"] or 0)
+        return E[x]
+
+    for x in range(n):
+        end(x)
+    return S, E
+
+
+def py_slack(cfg):
+    """every timed scheduler is scheduled to end strictly before its timeout expires"""
+    if not any(j["sched"] and j.get("timeout") is not None for j in cfg["jobs"]):
+        return True
+    if any((not j["sched"]) and j["dur"] is None for j in cfg["jobs"]):
+        return False
+    S, E = py_schedule(cfg)
+    return all(E[i] < S[i] + j["timeout"] for i, j in enumerate(cfg["jobs"]) if j["sched"] and j.get("timeout") is not None)
+
+
+def add_slack_timeouts(cfg, rnd):
+    """give some schedulers of a plain tree a timeout that their schedule does not reach"""
+    S, E = py_schedule(cfg)
+    for i, j in enumerate(cfg["jobs"]):
+        if j["sched"] and rnd.random() < 0.6:
+            j["timeout"] = E[i] - S[i] + rnd.randint(1, 3)
+    return cfg
 
 
 def flat_reqs(cfg, x):
@@ -143,16 +191,24 @@ def model_schedules(cfgs):
     res = []
     for c, o in zip(cfgs, outs):
         n = len(c["jobs"])
-        if not o or o[0] != 1 or len(o) != 4 + 2 * n:
+        if not o or o[0] != 1 or len(o) != 6 + 2 * n:
             res.append(("undecodable", None, None))
         elif o[1] != 1:
             res.append(("not-wf", None, None))
-        elif o[2] != 1:
-            res.append(("not-plain", None, None))
+        elif o[4] != 1:
+            res.append(("not-plainT", None, None))
         elif o[3] != 1:
             res.append(("solver-check-failed", None, None))
+        elif o[5] != 1:
+            res.append(("no-slack", None, None))
+        elif (o[2] == 1) != (not any(j["sched"] and j.get("timeout") is not None for j in c["jobs"])):
+            res.append(("plain-flag-differs", None, None))
         else:
-            res.append(("ok", o[4:4 + n], o[4 + n:4 + 2 * n]))
+            S, E = o[6:6 + n], o[6 + n:6 + 2 * n]
+            if (S, E) != tuple(py_schedule(c)):
+                res.append(("solver-differs-from-direct-recursion", None, None))
+            else:
+                res.append(("ok", S, E))
     return res
 
 
@@ -233,14 +289,16 @@ def pool_map(fn, args):
 PLAIN_PROFILE = {"window": 0.0, "timeout": 0.0, "root_timeout": 0.0, "forever": 0.0, "never": 0.0, "sdur": 0.0,
                  "sd_never": 0.0, "nested": 0.45, "exc": 0.3, "crit": 0.3, "edge": 0.5, "tie": 0.5, "fine": 0.1}
 
-SCHED_RULE = (" Closed-form schedule: a quarter as many additional plain trees (no window, timeout, forever or never-ending "
-              "job, handlers of zero duration; nesting up to depth 3, raising and critical jobs allowed) are generated; for "
-              "each, and for every plain tree of the main batch, the extracted model computes the start and end instant of "
-              "every job (solve, accepted only if is_scheduleb holds: driver op 104), the implementation is run and every "
-              "body entry/exit strictly before the first instant at which a critical job raises must be at exactly those "
-              "instants and none may be missing (theorem runs_on_schedule); the fully flattened graph is built by the "
-              "harness, checked to be the model's flattened graph (flat_ofb, driver op 105), run on the implementation and "
-              "compared with the same instants (theorem same_times_as_flattened).")
+SCHED_RULE = (" Closed-form schedule: a quarter as many additional plain trees (no window, forever or never-ending job, "
+              "handlers of zero duration; nesting up to depth 3, raising and critical jobs allowed; half of them with "
+              "timeouts on random schedulers that their schedule does not reach) are generated; for each, and for every such "
+              "tree of the main batch, the extracted model computes the start and end instant of every job (solve, accepted "
+              "only if is_scheduleb and slackb hold: driver op 104; also compared with a direct recursion written in the "
+              "harness), the implementation is run and every body entry/exit strictly before the first instant at which a "
+              "critical job raises must be at exactly those instants and none may be missing (theorems runs_on_schedule, "
+              "runs_on_schedule_timeouts); the fully flattened graph is built by the harness, checked to be the model's "
+              "flattened graph (flat_ofb, driver op 105), run on the implementation and compared with the same instants "
+              "(theorem same_times_as_flattened).")
 
 
 class WithSchedule:
@@ -254,6 +312,8 @@ class WithSchedule:
             mj = rnd.choice([3, 5, 8, 12, 14])
             cfg = rgen.gen_config(rnd, max_jobs=mj, profile=PLAIN_PROFILE)
             if py_plain(cfg):
+                if rnd.random() < 0.5:
+                    add_slack_timeouts(cfg, rnd)
                 out.append(cfg)
         return out
 
